@@ -220,6 +220,8 @@ type storageRunner struct {
 	served      int64 // storage requests answered through the channel
 	ev          *verifhook.Evaluator
 	evRef       time.Time
+	http        *httpState
+	secrets     []string
 }
 
 // serve answers storage requests arriving on the application's storage channel (as the storage
@@ -518,6 +520,10 @@ func (s *storageRunner) step(r *runner, line string) {
 		r.reply("ok")
 	case "cage":
 		r.resolve("%s", line)
+		if s.ev == nil {
+			r.reply("bad-op")
+			return
+		}
 		s.ev.AgeCache(time.Duration(atoi(f[2])) * time.Millisecond)
 		r.reply("ok")
 	case "cq":
@@ -564,6 +570,9 @@ func (s *storageRunner) step(r *runner, line string) {
 			r.reply("%s%s", renderTopics(reply.(protocol.ConsumerTopics)), tick)
 		}
 	default:
+		if s.httpStep(r, f, line) {
+			return
+		}
 		r.resolve("%s", line)
 		r.reply("bad-op")
 	}
